@@ -143,14 +143,14 @@ def prior_range(rng):
 
 ATTRS = ["centre", "normalization", "sigma"]
 KINDS_EXTRA = ["const", "const", "const", "gauss", "loguniform", "shared"]
-# class labels (computed from the case alone) of the recorded genuine defects
+# shapes (computed from the case alone) on which two defects were found; both are repaired in /repo (c25e54b, cc931f4),
+# so these labels only feed the distribution histogram: no failure carries a class that a known finding could match
 CLASS_SENS_ORDER = "sens-prior-id-order!=path-order"
-CLASS_LABELS = "grid-cell-folder-labels-collide"
 
 
 def labels_collide(c):
-    """two cells of a grid dimension get the same folder label `<name>_<lower:.2f>_<upper:.2f>` (computed with the
-    code's own float formulas from the case alone)"""
+    """two cells of a grid dimension would get the same two-decimal folder label `<name>_<lower:.2f>_<upper:.2f>`
+    (the naming before cc931f4; computed with the code's own float formulas from the case alone)"""
     n = c["n"]
     step = 1 / n
     for nm, lo, hi in c["priors"]:
@@ -372,7 +372,7 @@ def oracle_fit(c, r):
         exp_cell.append(cell)
         exp_ll.append(-sum(((dg[nm] + 0.5) / n) / (n + 1) ** j for j, nm in enumerate(alpha)))
     fails = []
-    classes = [CLASS_LABELS] if labels_collide(c) else []
+    classes = []
 
     def bad(msg):
         fails.append((msg, classes))
@@ -510,7 +510,7 @@ def oracle_sens_run(c, r):
                         "hi": lo + min(1.0, cu + ls / (2 * n)) * (hi - lo), "w": (hi - lo) / n}
         exp.append(cell)
     fails = []
-    order_classes = sens_classes(c)
+    order_classes = []
 
     def enc(idx):
         return -sum(w * (exp[idx][nm]["centre"] if nm in exp[idx] else 1.0) for nm, w in wts)
@@ -941,7 +941,7 @@ def run(ctx):
             ctx.hist("sens_run.created_in_path_order", not sens_classes(c))
             ctx.hist("sens_run.limit_scale", str(c["limit_scale"]))
         if c["kind"] == "fit":
-            ctx.hist("fit.folder_labels_collide", labels_collide(c))
+            ctx.hist("fit.two_decimal_labels_would_collide", labels_collide(c))
         if c["kind"] in ("fit", "mappers"):
             ctx.hist("%s.extras" % c["kind"], ",".join(sorted({v.split(":")[0] for e in c["extras"].values() for v in e.values()})) or "const")
         ctx.oracle["cases"] += 1
@@ -949,8 +949,7 @@ def run(ctx):
             ctx.oracle["failures"] += 1
             if i in corpus:
                 ctx.obligation("regression:" + corpus[i], "regression", False, "implementation raised %s" % r["exc"])
-            ctx.failure("oracle", "implementation raised %s: %s" % (r["exc"], r.get("msg")), c, impl=r,
-                        classes=[CLASS_LABELS] if c["kind"] == "fit" and labels_collide(c) else [])
+            ctx.failure("oracle", "implementation raised %s: %s" % (r["exc"], r.get("msg")), c, impl=r)
             continue
         fails = oracle_all(c, r["ok"])
         if i in corpus:
@@ -996,9 +995,8 @@ MANIFEST = {
             "compared bit-for-bit by correspondence only); UniformPrior.value_for is modelled as lo+u*(hi-lo) without its 14-decimal "
             "rounding; the order of the grid dimensions is the library's sort_priors_alphabetically (taken as given); 'other parameters "
             "keep their priors' is checked by the oracle only (object identity, sharing structure), not modelled in Coq; completion orders "
-            "are steered through a permuting job runner, the real process pool runs in two thorough-tier cases only. Two genuine "
-            "defects of the unchanged tree are recorded as known findings with proposed fixes (sensitivity csv/folder labels in attribute order; "
-            "grid cells narrower than 0.005 sharing a folder); the with_limits message defect found here was repaired in d755794 and is pinned "
-            "by corpus/C16 regression obligations.",
+            "are steered through a permuting job runner, the real process pool runs in two thorough-tier cases only. Three genuine defects found by this check (sensitivity csv/folder labels in attribute order; grid cells narrower "
+            "than 0.005 sharing a folder; Prior.with_limits keeping the old message) were repaired in /repo (c25e54b, cc931f4, d755794) and are "
+            "pinned by corpus/C16 regression obligations; no known finding is open.",
     "technique": "machine-checked proof in Coq (translator-regenerated model) + vm_compute correspondence",
 }
